@@ -77,12 +77,15 @@ class Ctx:
         props = props or self.unit.props
         pre = list(self.assumes) + ([exit.cond] if exit is not None else [])
         if known:
-            kid, region = known
-            if kid not in self.known_ids: raise RuntimeError(f"known-finding id {kid} is not listed in known_findings.json")
-            o = vc.Obl(name, goal, pre + [NOT(region)], kind, exit, props, "valid", note + f" [outside known finding {kid}]")
+            if isinstance(known, tuple): known = [known]
+            for kid, region in known:
+                if kid not in self.known_ids: raise RuntimeError(f"known-finding id {kid} is not listed in known_findings.json")
+            union = OR(*[r for _, r in known])
+            o = vc.Obl(name, goal, pre + [NOT(union)], kind, exit, props, "valid", note + f" [outside known findings {[k for k, _ in known]}]")
             self.obls.append(o)
-            k = vc.Obl(name + "#known:" + kid, goal, pre + [region], "known", exit, props, "invalid", kid)
-            self.obls.append(k)
+            for kid, region in known:
+                k = vc.Obl(name + "#known:" + kid, goal, pre + [region], "known", exit, props, "invalid", kid)
+                self.obls.append(k)
         else:
             self.obls.append(vc.Obl(name, goal, pre, kind, exit, props, "valid", note))
 
